@@ -17,6 +17,8 @@
 
 #[path = "../c10/builtins.rs"]
 mod builtins;
+#[path = "../c10/conc.rs"]
+mod conc;
 
 use builtins::{Arg, Case, canon_kind, make_caller};
 use roto::{FileTree, Runtime};
@@ -105,9 +107,13 @@ fn unhex(s: &str) -> String {
 
 /// Run jobs (`worker` argument vectors) in parallel, each in its own process.
 fn run_parallel(jobs: &[Vec<String>], timeout: Duration) -> Vec<Ended> {
+    run_parallel_n(jobs, timeout, 8)
+}
+
+fn run_parallel_n(jobs: &[Vec<String>], timeout: Duration, max: usize) -> Vec<Ended> {
     let next = AtomicUsize::new(0);
     let out: Mutex<Vec<Option<Ended>>> = Mutex::new(vec![None; jobs.len()]);
-    let threads = std::thread::available_parallelism().map(|n| n.get()).unwrap_or(4).min(8);
+    let threads = std::thread::available_parallelism().map(|n| n.get()).unwrap_or(4).min(max);
     std::thread::scope(|s| {
         for _ in 0..threads {
             s.spawn(|| {
@@ -512,6 +518,57 @@ fn builtin_batch_worker(rep: &mut Report, seed: u64, thorough: bool, list: &str,
     }
 }
 
+
+// ------------------------------------------------------------------- contention
+
+/// List built-ins while other threads use the same list (see `conc.rs`): each
+/// case alone in a worker; abort / signal / timeout = violation, case = replay.
+fn conc_part(rep: &mut Report, viol: &mut Viol, thorough: bool) {
+    let cases = conc::cases(thorough);
+    let jobs: Vec<Vec<String>> = cases.iter().map(|c| one_job(&c.json)).collect();
+    let ended = run_parallel_n(&jobs, Duration::from_secs(if thorough { 600 } else { 240 }), 3);
+    for (c, e) in cases.iter().zip(ended) {
+        rep.evaluations += 1;
+        rep.hist("builtin", c.builtin);
+        rep.hist("conc-class", c.class.clone());
+        match &e {
+            Ended::Exit(0, out) if out.trim() == "RESULT ok" => {
+                rep.class(format!("conc|{}|{}|returned", c.builtin, c.class));
+                rep.hist("conc-outcome", "every call returned");
+            }
+            Ended::Exit(0, out) => {
+                rep.class(format!("conc|{}|{}|wrong-result", c.builtin, c.class));
+                rep.hist("conc-outcome", "wrong result");
+                rep.mismatch(
+                    "a list built-in returned a different result under contention than single-threaded (the lock model says calls are atomic)",
+                    json!({"case": c.json, "real": out.trim()}),
+                );
+            }
+            Ended::Exit(3, out) => {
+                rep.mismatch("contention case could not be set up", json!({"case": c.json, "error": out.trim()}));
+            }
+            other => {
+                let how = ended_str(other);
+                rep.class(format!("conc|{}|{}|{how}", c.builtin, c.class));
+                rep.hist("conc-outcome", format!("killed: {how}"));
+                let mut input = c.json.clone();
+                input["ended"] = json!(how);
+                if let Ended::Signal(_, err) = other {
+                    let msg: String = err.lines().find(|l| l.contains("panicked")).unwrap_or("").chars().take(300).collect();
+                    input["stderr"] = json!(msg);
+                }
+                let verb = if how == "timeout" { "builtin-timeout" } else { "builtin-abort" };
+                viol.add(
+                    rep,
+                    &format!("built-in {} kills the host process ({how}) when another thread uses the same list: `{}`", c.builtin, c.class),
+                    &format!("{verb} {} contention {}", c.builtin, c.class),
+                    input,
+                );
+            }
+        }
+    }
+}
+
 // ------------------------------------------------------------------ single case
 
 /// Run one case (arith or builtin) in this process; prints `RESULT …`.
@@ -534,6 +591,7 @@ fn run_one(case: &J) -> Result<String, String> {
             let f = make_caller(&mut pkg, sig)?;
             Ok(f(&args))
         }
+        Some("conc") => conc::run(case),
         _ => Err("unknown case kind".into()),
     }
 }
@@ -549,11 +607,14 @@ fn main() {
             let only = args.get(4).map(|s| s.as_str()).unwrap_or("all");
             let mut drv = Driver::spawn().expect("lean driver");
             let mut viol = Viol { seen: BTreeSet::new() };
-            if only != "builtins" {
+            if only != "builtins" && only != "conc" {
                 arith_part(&mut rep, &mut viol, &mut drv, seed, thorough, &workdir);
             }
-            if only != "arith" {
+            if only != "arith" && only != "conc" {
                 builtin_part(&mut rep, &mut viol, &mut drv, seed, thorough, &workdir);
+            }
+            if only != "arith" && only != "builtins" {
+                conc_part(&mut rep, &mut viol, thorough);
             }
         }
         Some("worker") => match args[2].as_str() {
